@@ -104,6 +104,11 @@ def gen_name(rng):
 
 
 def gen_var_item(rng):
+    if rng.random() < 0.12:
+        # the right-hand side is another variable: `_replace_variables_middleware` substitutes its current value
+        name, ref = gen_name(rng), gen_name(rng)
+        form = rng.choice(["%s = @@%s", "@@%s = @@%s", "@@session.%s = @@session.%s", "SESSION %s = @@%s"])
+        return form % (name, ref), "R|%s|%s" % (name, ref)
     name = gen_name(rng)
     lit = gen_lit(rng, type_of(name))
     sp = rng.choice(["bare", "session", "local", "@@", "@@session.", "@@local.", "global", "@@global.", "persist", "user", "bare", "@@session."])
